@@ -101,12 +101,12 @@ def isProtoPlus (n : Naming) (a : Addr) : Bool :=
 def importModule (n : Naming) (a : Addr) : Str :=
   if inApi n a then a.module
   else if isProtoPlus n a then a.module
-  else a.module ++ "_pb2".toList
+  else a.module ++ ['_', 'p', 'b', '2']
 
 /-- module part of `str(ident)` (`Address.__str__`) -/
 def identModule (n : Naming) (a : Addr) : Str :=
   if isProtoPlus n a then (if a.alias ≠ [] then a.alias else a.module)
-  else a.module ++ "_pb2".toList
+  else a.module ++ ['_', 'p', 'b', '2']
 
 /-- which family of (de)serialisation attributes exists on a class -/
 inductive Codec where
@@ -114,7 +114,7 @@ inductive Codec where
   | pb2     -- protobuf:   `SerializeToString` / `FromString`
 deriving Repr, DecidableEq
 
-def endsWithPb2 (s : Str) : Bool := "_pb2".toList.isSuffixOf s
+def endsWithPb2 (s : Str) : Bool := ['_', 'p', 'b', '2'].isSuffixOf s
 
 /-- the attribute the stub template writes:
 `{% if ident.python_import.module.endswith('_pb2') %}SerializeToString{% else %}serialize{% endif %}` -/
@@ -148,9 +148,9 @@ deriving Repr, DecidableEq
 def protoName (a : Addr) : Str := dotted (a.package ++ a.parent ++ [a.name])
 
 /-- `Method.void` -/
-def isVoid (m : Method) : Bool := protoName m.output == "google.protobuf.Empty".toList
+def isVoid (m : Method) : Bool := protoName m.output == ['g', 'o', 'o', 'g', 'l', 'e', '.', 'p', 'r', 'o', 't', 'o', 'b', 'u', 'f', '.', 'E', 'm', 'p', 't', 'y']
 
-def arity (streaming : Bool) : Str := if streaming then "stream".toList else "unary".toList
+def arity (streaming : Bool) : Str := if streaming then ['s', 't', 'r', 'e', 'a', 'm'] else ['u', 'n', 'a', 'r', 'y']
 
 /-- `Method.grpc_stub_type` -/
 def stubKind (m : Method) : Str := arity m.clientStreaming ++ '_' :: arity m.serverStreaming
@@ -197,12 +197,12 @@ deriving Repr, DecidableEq
 asyncio class puts the mixins after `kind`; only the relative order of EQUAL names matters).
 Members of the base class are shadowed by any member of the subclass and are left out. -/
 def members (T : Tables) (n : Naming) (svc : Service) : List (Str × Member) :=
-  [("create_channel".toList, .boundMethod), ("grpc_channel".toList, .value)] ++
-  (if svc.hasLro then [("operations_client".toList, .value)] else []) ++
+  [(['c', 'r', 'e', 'a', 't', 'e', '_', 'c', 'h', 'a', 'n', 'n', 'e', 'l'], .boundMethod), (['g', 'r', 'p', 'c', '_', 'c', 'h', 'a', 'n', 'n', 'e', 'l'], .value)] ++
+  (if svc.hasLro then [(['o', 'p', 'e', 'r', 'a', 't', 'i', 'o', 'n', 's', '_', 'c', 'l', 'i', 'e', 'n', 't'], .value)] else []) ++
   svc.methods.map (fun m => (stubKey T m, .stub (mkStub n svc m))) ++
-  [("close".toList, .boundMethod)] ++
+  [(['c', 'l', 'o', 's', 'e'], .boundMethod)] ++
   svc.mixins.map (fun x => (snake x, .mixinStub)) ++
-  [("kind".toList, .value)]
+  [(['k', 'i', 'n', 'd'], .value)]
 
 /-- attribute lookup on a class body: the LAST definition of a name wins -/
 def lastDef {α : Type} : List (Str × α) → Str → Option α
@@ -253,15 +253,16 @@ deriving Repr, DecidableEq
 structure MsgOps (μ δ : Type) where
   empty : μ                  -- `T()` / `T(None)`
   ofDict : δ → μ             -- `T(mapping)` (proto-plus) / `T(**mapping)`
-  truthy : μ → Bool          -- `bool(instance)`
 
-/-- the coercion block of `client_method` / async_client.py.j2:
+/-- the coercion block of `client_method` / async_client.py.j2 (since fix 59b2075):
 same package:      `if not isinstance(request, T): request = T(request)`
-different package: `if isinstance(request, dict): request = T(**request)  elif not request: request = T()` -/
-def coerce {μ δ : Type} (ops : MsgOps μ δ) (diffPkg : Bool) : Arg μ δ → μ
+different package: `if isinstance(request, dict): request = T(**request)  elif request is None: request = T()`
+An instance is kept as it is in both branches (before the fix the second branch tested
+`elif not request:` and replaced a falsy instance by `T()`). -/
+def coerce {μ δ : Type} (ops : MsgOps μ δ) (_diffPkg : Bool) : Arg μ δ → μ
   | .omitted => ops.empty
   | .dict d => ops.ofDict d
-  | .inst x => if diffPkg then (if ops.truthy x then x else ops.empty) else x
+  | .inst x => x
   | .iter _ => ops.empty     -- not reached (see `runCall`)
 
 /-! ### One client call -/
